@@ -20,12 +20,60 @@ package arch
 //@   ensures [C07] no-env: !ghostFlag("envRead")
 //@   modifies [C11 C12] &info.Arch, &info.Contents
 //
+//@ spec func archItem(c *files.Content) string {
+//@     switch c.Type {
+//@     case "dir", "implicit dir":
+//@         return ufStr("tarHead", files.AsRelativePath(c.Destination), int64(c.FileInfo.Mode&0o7777), int64(0), byte('5'), "", c.FileInfo.Owner, c.FileInfo.Group, c.FileInfo.MTime)
+//@     case "symlink":
+//@         return ufStr("tarHead", files.AsRelativePath(c.Destination), int64(0), int64(0), byte('2'), c.Source, "", "", c.FileInfo.MTime)
+//@     }
+//@     return ufStr("tarHead", files.AsRelativePath(c.Destination), int64(c.FileInfo.Mode), c.FileInfo.Size, byte('0'), "", c.FileInfo.Owner, c.FileInfo.Group, c.FileInfo.MTime) + fsContent(c.Source)
+//@ }
+//
+//@ spec func archPayload(cs files.Contents, n int) string {
+//@     return foldStr(n, func(i int) string { return archItem(cs[i]) })
+//@ }
+//
+//@ spec func archSize(c *files.Content) int64 {
+//@     if c.Type == "dir" || c.Type == "implicit dir" || c.Type == "symlink" { return 0 }
+//@     return c.FileInfo.Size
+//@ }
+//
+//@ spec func archSizes(cs files.Contents, n int) int64 {
+//@     return foldInt(n, func(i int) int64 { return archSize(cs[i]) })
+//@ }
+//
+//@ spec func archEntryOK(c *files.Content) bool {
+//@     if c.Type == "dir" || c.Type == "implicit dir" || c.Type == "symlink" { return true }
+//@     return c.FileInfo.Mode < 1<<18 && c.FileInfo.Size == int64(len(fsContent(c.Source)))
+//@ }
+//
+//@ spec func archEntriesOK(cs files.Contents) bool {
+//@     return forall(0, len(cs), func(i int) bool { return archEntryOK(cs[i]) })
+//@ }
+//
+//@ spec func entriesDistinct(cs files.Contents) bool {
+//@     return forall(0, len(cs), func(j int) bool { return forall(0, len(cs), func(k int) bool { return j == k || cs[j] != cs[k] }) })
+//@ }
+//
 //@ inline func createFilesInTar(info *nfpm.Info, tw *tar.Writer) (entries []MtreeEntry, totalSize int64, err error)
-//@   loop 0 (entries []MtreeEntry)
+//@   requires [C01] info != nil && tw != nil && files.SpecContentsNonNil(info.Contents)
+//@   requires [C01] files.SpecPlanInputOK(info.Contents, true)
+//@   requires [C01] archEntriesOK(info.Contents) && entriesDistinct(info.Contents)
+//@   requires !ghostFlag("failed") && !ghostFlag("clockRead") && !ghostFlag("envRead")
+//@   ensures [C01] payload-is-exactly-the-plan: implies(err == nil, ghostStr(tw, "tarManifest") == old(ghostStr(tw, "tarManifest")) + old(archPayload(info.Contents, len(info.Contents))))
+//@   ensures [C03] size-is-the-sum-of-the-regular-files: implies(err == nil, totalSize == old(archSizes(info.Contents, len(info.Contents))))
+//@   loop 0 (iter int, entries []MtreeEntry, totalSize int64)
+//@     invariant [C01] payload-so-far: inlined() || ghostStr(tw, "tarManifest") == old(ghostStr(tw, "tarManifest")) + old(archPayload(info.Contents, iter))
+//@     invariant [C03] size-so-far: inlined() || totalSize == old(archSizes(info.Contents, iter))
+//@     invariant [C01] later-entries-untouched: inlined() || forall(iter, len(info.Contents), func(j int) bool { return info.Contents[j].Destination == old(info.Contents[j].Destination) })
+//@     invariant [C01] between-entries: inlined() || (ghostInt(tw, "tarRemaining") == 0 && !ghostBool(tw, "tarClosed") && ghostAny(tw, "werr") == nil)
+//@     invariant [C01] index-in-range: 0 <= iter && iter <= len(info.Contents)
+//@     invariant [C01] plan-entries-complete: inlined() || files.SpecPlanInputOK(info.Contents, true)
 //@     invariant [C11 C12] accumulator-fresh: entries == nil || fresh(entries)
 //@     invariant [C06] no-failure-so-far: !ghostFlag("failed")
 //@     invariant [C07] no-clock-so-far: implies(!old(info.MTime.IsZero()), !ghostFlag("clockRead"))
-//@     invariant [C11 C12] plan-still-fresh: nfpm.SpecPlanOK(info.Contents, !old(info.MTime.IsZero()))
+//@     invariant [C11 C12] plan-still-fresh: !inlined() || nfpm.SpecPlanOK(info.Contents, !old(info.MTime.IsZero()))
 //
 //@ spec func archPkgver(epoch, version, prerelease, release string) string {
 //@     v := archlinuxVersion(version, prerelease) + "-" + strconv.Itoa(pkgrelOf(release))
